@@ -12,14 +12,13 @@
    interleaving of its own steps (look at the current node; node = node->next under the mutex)
    with the other threads' sections (CLTrav.v, theorem C03_traversal_under_interference below):
    nothing is visited twice, and whatever was in the list at the start, passes the visit test and
-   is not removed meanwhile has been visited at the end.
+   is not removed meanwhile has been visited at the end; visits follow list order.
    The thread-level model CLConc.v (visible actions on the list mutex and currentCounter; the
    traversal steps node = node->next under the mutex and reads the visited node's fields
    outside it) is replayed step for step against the real CallbackList under the cooperative
    scheduler.  NOT mechanised: that every execution of the instruction machine CLConc projects to
    such a sequence of sections and traversal steps (it does because the sections are mutually
-   exclusive and everything else a call does is thread-local), the clause "respects list order"
-   for traversals under interference, the EventDispatcher's map of lists (tie A: lock scopes), and
+   exclusive and everything else a call does is thread-local), the EventDispatcher's map of lists (tie A: lock scopes), and
    data-race freedom of the real code (ThreadSanitizer in the thorough tier). *)
 From Coq Require Import List Arith NArith ZArith Bool.
 From EV Require Import CLModel CLHeap CLConcProofs CLConc.
@@ -120,3 +119,17 @@ Example C03_traversal_example :
                  [TVisit; TOther (SRemove (Some 1)); TAdvance; TOther (SBefore 13 9%N (Some 2)); TVisit; TAdvance; TVisit; TAdvance] in
   tvis st = [0; 2] /\ tcur st = None /\ tgone st = [1] /\ tids st = [0; 3; 2].
 Proof. vm_compute. repeat split; reflexivity. Qed.
+
+(* list order under interference: whenever the traversal is about to visit w, every callback it
+   visited earlier and that is still in the list stands before w in the list *)
+Theorem C03_traversal_visits_in_list_order :
+  forall capt g ids evs w nd,
+    GInv g ids ->
+    (forall z, In z ids -> exists nd, nth_error (heap g) z = Some nd /\ GenCL.visit_cond (ctr nd) capt = true) ->
+    Forall ev_ok evs ->
+    let st := trun capt (tinit g ids) evs in
+    tph st = false -> tcur st = Some w -> nth_error (heap (tg st)) w = Some nd -> GenCL.visit_cond (ctr nd) capt = true ->
+    tvis (tstep capt st TVisit) = (tvis st ++ [w])%list /\
+    forall v, In v (tvis st) -> In v (tids st) -> precedes (tids st) v w.
+Proof. exact traversal_visits_in_list_order. Qed.
+Print Assumptions C03_traversal_visits_in_list_order.
